@@ -2,7 +2,177 @@
 import itertools
 from .common import *   # noqa
 
-CONTRACTS = []
+import z3
+from pyvc.nparr import sym_array, SArr
+from pyvc import frontend
+
+F = 'core/_files.py'
+
+
+class ApplyAlong(Contract):
+    """applyAlongDimensions with NAMED reducers on a file with dimensions t, y of ARBITRARY lengths and variables v(t, y), u(t),
+    w(y).  The numerical reduction itself is numpy's (an uninterpreted function here, min/max with their bound property); what
+    is proved is the part the library owns:
+      * each variable that has a named dimension is reduced along exactly the corresponding axis, exactly once per named
+        dimension, by the named reducer, with the axis retained (keepdims), starting from the variable's own data;
+      * variables without the named dimensions are element-wise unchanged; each named dimension gets length 1, the others keep theirs;
+      * attributes and flags carried, fresh buffers, input unchanged;
+      * for max: the result bounds every element of the source."""
+    prop = 'C03'
+    target = F + '::PseudoNetCDFFile.applyAlongDimensions'
+    max_paths = 60
+
+    def __init__(self, dimfuncs):
+        self.dimfuncs = dict(dimfuncs)
+        self.name = 'applyAlongDimensions[%s]' % ','.join('%s=%s' % kv for kv in dimfuncs)
+
+    def inputs(self, ctx, I):
+        nt, ny = ctx.fresh('nt'), ctx.fresh('ny')
+        self.nt, self.ny = nt, ny
+        mod = frontend.load('core/_variables.py')
+        node, _ = mod.find('PseudoNetCDFVariable')
+        cls = I.classref(mod, node)
+
+        def var(name, dims, shape):
+            a = sym_array(name, shape, 'f')
+            a.cls = cls
+            a.attrs.update(dimensions=dims, _ncattrs=('units',), units='ppb')
+            return a
+        self.vars = dict(v=var('v', ('t', 'y'), (nt, ny)), u=var('u', ('t',), (nt,)), w=var('w', ('y',), (ny,)))
+        self.pre = {k: a.buf.get for k, a in self.vars.items()}
+        f = pnc_file(I, dimensions={'t': dim_obj(I, 't', nt, unlimited=True), 'y': dim_obj(I, 'y', ny)}, variables=dict(self.vars),
+                     attrs=dict(title='source'))
+        return dict(self=f, dimfuncs=self.dimfuncs)
+
+    def call_args(self, inp):
+        return [inp['self']], dict(inp['dimfuncs'])
+
+    def requires(self, inp):
+        return And(ge(self.nt, 1), ge(self.ny, 1))
+
+    def small(self, inp):
+        return And(le(self.nt, 3), le(self.ny, 3))
+
+    def chain(self, I, key, dims):
+        """the reductions applied to variable `key`, followed from its own buffer: [(axis, how, keepdims, record)]"""
+        recs = I.ctx.ghost.get('reductions', [])
+        out, buf = [], self.vars[key].buf
+        while True:
+            nxt = [r for r in recs if r['src_buf'] is buf and all(r is not o for o in out)]
+            if not nxt:
+                break
+            out.append(nxt[0])
+            buf = nxt[0]['result'].buf
+        return out
+
+    def ensures(self, inp, res, I):
+        f = inp['self']
+        if not hasattr(res, 'attrs') or 'variables' not in res.attrs:
+            return [('returns-file', False)]
+        dims, vs = res.attrs['dimensions'], res.attrs['variables']
+        out = [('is-a-new-file', res is not f), ('dimension-names-in-order', list(dims.keys()) == ['t', 'y']),
+               ('variable-names-in-order', list(vs.keys()) == ['v', 'u', 'w']), ('file-attributes-carried', res.attrs.get('title') == 'source')]
+        if list(dims.keys()) != ['t', 'y'] or list(vs.keys()) != ['v', 'u', 'w']:
+            return out
+        newlen = {d: (1 if d in self.dimfuncs else n) for d, n in (('t', self.nt), ('y', self.ny))}
+        out += [('length(t)', eq(dims['t'].attrs['_len'], newlen['t'])), ('length(y)', eq(dims['y'].attrs['_len'], newlen['y'])),
+                ('unlimited-flags-kept', And(eq(dims['t'].attrs['_unlimited'], True), eq(dims['y'].attrs['_unlimited'], False)))]
+        i, j = z3.Int('i'), z3.Int('j')
+        for key, vd in (('v', ('t', 'y')), ('u', ('t',)), ('w', ('y',))):
+            X = vs[key]
+            if not isinstance(X, SArr) or X.ndim != len(vd):
+                out.append(('%s-is-an-array-of-rank-%d' % (key, len(vd)), False))
+                continue
+            q = (i, j)[:len(vd)]
+            rng = And(*[And(ge(x, 0), lt(x, newlen[d])) for x, d in zip(q, vd)])
+            out.append(('%s-shape' % key, And(*[eq(X.shape[k], newlen[d]) for k, d in enumerate(vd)])))
+            named = [d for d in vd if d in self.dimfuncs]
+            ch = self.chain(I, key, vd)
+            if not named:
+                out.append(('%s-not-reduced' % key, len(ch) == 0))
+                out.append(('%s-unchanged' % key, Implies(rng, eq(X.get(q), self.pre[key](q)))))
+            else:
+                ok = (len(ch) == len(named) and sorted(r['axes'] for r in ch) == sorted((vd.index(d),) for d in named)
+                      and all(r['keepdims'] for r in ch) and all(r['how'] == self.dimfuncs[vd[r['axes'][0]]] for r in ch))
+                out.append(('%s-reduced-once-per-named-dimension-along-its-axis-by-the-named-reducer-with-keepdims' % key, ok))
+                if ok:
+                    qq = z3.Int('sq0'), z3.Int('sq1')
+                    first = ch[0]
+                    out.append(('%s-reduction-starts-from-the-variable-data' % key, eq(first['src_get'](qq[:len(vd)]), self.pre[key](qq[:len(vd)]))))
+                    out.append(('%s-elements-are-the-reduction-results' % key, Implies(rng, eq(X.get(q), ch[-1]['result'].get(q)))))
+                    if all(r['how'] == 'max' for r in ch):
+                        src_rng = And(*[And(ge(x, 0), lt(x, n)) for x, n in zip(qq, self.vars[key].shape)])
+                        zero = tuple(0 if d in self.dimfuncs else x for x, d in zip(qq, vd))
+                        out.append(('%s-max-bounds-every-source-element' % key, Implies(src_rng, ge(X.get(zero), self.pre[key](qq[:len(vd)])))))
+            out.append(('%s-attributes-carried' % key, X.attrs.get('units') == 'ppb' and tuple(X.attrs.get('dimensions', ())) == vd))
+            out.append(('%s-fresh-buffer' % key, all(X.buf is not a.buf for a in self.vars.values())))
+        out.append(('input-unchanged', And(Implies(And(ge(i, 0), lt(i, self.nt), ge(j, 0), lt(j, self.ny)),
+                                                   And(eq(self.vars['v'].buf.get((i, j)), self.pre['v']((i, j))), eq(self.vars['u'].buf.get((i,)), self.pre['u']((i,))),
+                                                       eq(self.vars['w'].buf.get((j,)), self.pre['w']((j,))))),
+                                           eq(f.attrs['dimensions']['t'].attrs['_len'], self.nt), eq(f.attrs['dimensions']['y'].attrs['_len'], self.ny),
+                                           f.attrs['variables'].get('v') is self.vars['v'])))
+        return out
+
+
+    # -- replay on the real function -----------------------------------------------------------------------------------
+    def concretize(self, model, inp):
+        from pyvc.verify import model_value
+        return dict(dimfuncs=self.dimfuncs, nt=model_value(model, self.nt), ny=model_value(model, self.ny))
+
+    def concretize_without_model(self, inp):
+        return dict(dimfuncs=self.dimfuncs, nt=3, ny=4)
+
+    def replay(self, c):
+        # the counter-model's sizes first, then canonical sizes (a structural obligation -- wrong axis, wrong reducer -- does not
+        # show on a 1 x 1 file, which is what the solver likes to return)
+        out = None
+        for nt, ny in ((int(c['nt']), int(c['ny'])), (3, 4)):
+            if not (1 <= nt <= 30 and 1 <= ny <= 30):
+                continue
+            r = self.replay_one(dict(c, nt=nt, ny=ny))
+            if r is not None and not r[0]:
+                return r
+            out = out or r
+        return out
+
+    def replay_one(self, c):
+        import numpy as np
+        P = import_real()
+        nt, ny = int(c['nt']), int(c['ny'])
+        rng = np.random.default_rng(5)
+        f = P.PseudoNetCDFFile()
+        f.createDimension('t', nt).setunlimited(True)
+        f.createDimension('y', ny)
+        f.title = 'source'
+        data = dict(v=rng.random((nt, ny)), u=rng.random(nt), w=rng.random(ny))
+        vdims = dict(v=('t', 'y'), u=('t',), w=('y',))
+        for k_ in ('v', 'u', 'w'):
+            f.createVariable(k_, 'd', vdims[k_], values=data[k_].copy(), units='ppb')
+        df = dict(c['dimfuncs'])
+        try:
+            g = f.applyAlongDimensions(**df)
+        except Exception as e:
+            return False, dict(raised=type(e).__name__, message=str(e)[:200], nt=nt, ny=ny, dimfuncs=df)
+        bad = []
+        for k_, dims in vdims.items():
+            exp = data[k_]
+            for ax in range(len(dims) - 1, -1, -1):
+                if dims[ax] in df:
+                    exp = getattr(exp, df[dims[ax]])(axis=ax, keepdims=True)
+            got = np.asarray(g.variables[k_][...])
+            if got.shape != exp.shape or not np.allclose(got, exp, rtol=1e-12, atol=0):
+                bad.append('%s: got shape %r expected %r / values differ' % (k_, got.shape, exp.shape))
+            if not np.array_equal(np.asarray(f.variables[k_][...]), data[k_]):
+                bad.append('%s: input modified' % k_)
+            if getattr(g.variables[k_], 'units', None) != 'ppb':
+                bad.append('%s: attributes' % k_)
+        for d, n in (('t', nt), ('y', ny)):
+            if len(g.dimensions[d]) != (1 if d in df else n):
+                bad.append('len(%s)' % d)
+        return (not bad), dict(nt=nt, ny=ny, dimfuncs=df, failed=bad)
+
+
+CONTRACTS = [ApplyAlong(x) for x in ([('t', 'mean')], [('y', 'sum')], [('t', 'max'), ('y', 'max')], [('y', 'std'), ('t', 'std')])]
 
 
 def bounded(tier, seed):
@@ -117,9 +287,16 @@ def bounded_replay(p):
 
 
 META = dict(
-    level='exploration',
-    technique='bounded run-time contract against numpy.ma reductions (oracle); reduction equality is numpy semantics and cannot be stated as a deductive obligation without modelling numpy',
-    text='Result of applyAlongDimensions compared element-wise (masks included) with numpy.ma reductions with keepdims / numpy.apply_along_axis over the stated bound.',
-    note='bounded only; never counted as proved.',
-    assumptions=['numpy.ma reduction semantics (oracle)'],
-    explanation='')
+    level='other',
+    technique='applyAlongDimensions with named reducers proved by pyvc on files of arbitrary size (which array is reduced along which axis by which reducer, keepdims, '
+              'book-keeping); the numerical reduction (numpy.ma, masks), 1-D callables and reduce_dim by bounded run-time contract against numpy.ma (oracle)',
+    text='Proved for dimensions of ANY length, named reducers mean / sum / max / std on one or both dimensions: every variable with a named dimension is reduced exactly once '
+         'per named dimension, along the corresponding axis, by the named reducer, with the axis retained, starting from its own data, and the stored elements are that result; '
+         'variables without the dimensions are unchanged; named dimensions get length 1, others keep theirs; attributes and flags carried; fresh buffers; input unchanged; for max '
+         'the result bounds every source element. Bounded: element-wise comparison (masks included) with numpy.ma reductions / apply_along_axis for 7 reducers and 7 callables, '
+         'pairs of dimensions, order independence, reduce_dim.',
+    note='the reduction itself is an uninterpreted function in the proof (numpy owns it): numerical equality with numpy.ma, masked data, length-changing callables, coordinate '
+         'variables and the string form reduce_dim are bounded only.',
+    assumptions=['numpy reductions with axis/keepdims: shape rule and (min/max) bound property as modelled in pyvc/nparr.py; value otherwise uninterpreted',
+                 'numpy.ma reduction semantics (oracle of the bounded part)'],
+    explanation='mixed: discharged obligations for the dispatch and book-keeping of applyAlongDimensions + bounded numerical comparison')
